@@ -831,6 +831,14 @@ func (fsys *BackupFS) tryRestoreDirPaths(restoreDirPaths []string) (multiErr err
 	sort.Sort(ByLeastFilePathSeparators(restoreDirPaths))
 	var err error
 	for _, dirPath := range restoreDirPaths {
+		// a symlink that took the place of the directory must not be followed,
+		// MkdirAll and the metadata calls would act on the link's target
+		err = removeIfSymlink(fsys.base, dirPath)
+		if err != nil {
+			multiErr = errors.Join(multiErr, err)
+			continue
+		}
+
 		// backup -> base filesystem
 		err = copyDir(fsys.base, dirPath, fsys.baseInfos[dirPath])
 		if err != nil {
